@@ -494,7 +494,13 @@ class Generator:
                 if attrs != it.attrs:
                     self.rewrites.append(('R11', rel + '::' + it.name, 'derive attribute dropped'))
                 out.gen(attrs, 'attrs')
-                out.src(s[it.code_start:it.end] + '\n\n', rel, it.code_start)
+                body = s[it.code_start:it.end]
+                # R13: private fields are emitted `pub` (visibility only: everything lives in one module,
+                # and Verus refuses field access in public contracts of a type with private fields)
+                body2 = re.sub(r'(?m)^(\s*)(?!pub\b)(?!//)([a-z_][A-Za-z0-9_]*\s*:)', r'\1pub \2', body)
+                if body2 != body:
+                    self.rewrites.append(('R13', rel + '::' + it.name, 'private fields emitted pub'))
+                out.src(body2 + '\n\n', rel, it.code_start)
             elif it.kind == 'type':
                 out.src(s[it.start:it.end] + '\n', rel, it.start)
             elif it.kind in ('const', 'static'):
